@@ -103,3 +103,27 @@ pub proof fn lemma_first_use_idx(us: Seq<UseV>, p: spec_fn(UseV) -> bool, i: int
         lemma_first_use_idx(us.drop_first(), p, i - 1);
     }
 }
+
+/// a definition whose NAME span on (1-based) line1 contains column ch
+pub open spec fn p_def_at(file: PV, line1: int, ch: int) -> spec_fn(DefV) -> bool {
+    |d: DefV| d.file == file && d.line == line1 && d.start_char <= ch < d.end_char
+}
+pub open spec fn p_def_line(file: PV, line1: int) -> spec_fn(DefV) -> bool { |d: DefV| d.file == file && d.line == line1 }
+/// what find_fixture_or_definition_at_position computes (implementation / call-hierarchy entry point): the
+/// usage under the cursor resolved as go-to-definition does, else the definition whose name is under the cursor
+pub open spec fn op_goto_or_def(cache: Map<PV, String>, defs: Map<Seq<char>, Seq<DefV>>, uses: Map<PV, Seq<UseV>>,
+                                provf: spec_fn(Seq<char>) -> spec_fn(PV) -> bool, file: PV, line: u32, ch: u32) -> Option<DefV> {
+    match op_goto(cache, defs, uses, provf, file, line, ch) {
+        Some(d) => Some(d),
+        None => match file_content(cache, file) {
+            None => None,
+            Some(t) => match line_of(t, line as int) {
+                None => None,
+                Some(lc) => match word_at(lc, ch as int) {
+                    None => None,
+                    Some(w) => first_match(bucket(defs, w), p_def_at(file, line as int + 1, ch as int)),
+                },
+            },
+        },
+    }
+}
